@@ -74,9 +74,10 @@ $(B)/libbloc_csv.so.$(LIBSOVERSION): $(wildcard $(REPO)/modules/csv/*.cpp) $(wil
 $(B)/libbloc_utf8.so.$(LIBSOVERSION): $(wildcard $(REPO)/modules/utf8/*.cpp) $(wildcard $(REPO)/modules/utf8/*.h) | $(B)/obj/.dir
 	@echo "  SO $@"
 	@$(CXX) $(CXXFLAGS) -shared -o $@ $(filter %.cpp,$^)
+# the file module's fopen is wrapped: it resolves __wrap_fopen from the simulator (sim/props/C18.cpp)
 $(B)/libbloc_file.so.$(LIBSOVERSION): $(wildcard $(REPO)/modules/file/*.cpp) $(wildcard $(REPO)/modules/file/*.h) | $(B)/obj/.dir
 	@echo "  SO $@"
-	@$(CXX) $(CXXFLAGS) -shared -o $@ $(filter %.cpp,$^)
+	@$(CXX) $(CXXFLAGS) -shared -Wl,--wrap=fopen -o $@ $(filter %.cpp,$^)
 $(B)/libbloc_sqlite3.so.$(LIBSOVERSION): $(wildcard $(REPO)/modules/sqlite3/*.cpp) $(wildcard $(REPO)/modules/sqlite3/*.h) | $(B)/obj/.dir
 	@echo "  SO $@"
 	@$(CXX) $(CXXFLAGS) -shared -o $@ $(filter %.cpp,$^) -lsqlite3
